@@ -14,6 +14,7 @@ import (
 	"sync"
 	"time"
 
+	"github.com/0chain/common/core/logging"
 	"github.com/herumi/bls-go-binary/bls"
 
 	"verifh/mon"
@@ -32,7 +33,7 @@ var rules = map[string]string{
 	"C30": "validly signed transactions (ed25519 and bls0chain, send/data/smart-contract) cloned through the JSON receive path (ComputeProperties) and validated with ValidateWrtTime; every listed field is mutated singly in several value classes with stale and recomputed hash; distinct = (scheme, field, value class, hash variant, outcome) tuples",
 	"C32": "n<=64 (key,message,signature) items fed to BLS0ChainAggregateSignatureScheme with every batch size class, with each corruption pattern (none, single, several, wrong key, wrong message, swapped pair, cancelling pair same/cross batch, cancelling triple) at seeded positions; oracle = conjunction of individual herumi verifications; distinct = (n, batch size, pattern, position class, outcome) tuples",
 	"C33": "real DKG instances (1<=t<=n<=9) installed in a real miner chain; VRF shares (valid, wrong message, wrong signer, other DKG, garbage, duplicates, wrong timeout count) delivered in seeded orders through miner.Chain.AddVRFShare / verifyVRFShare / Round.AddVRFShare / ThresholdNumBLSSigReceived; distinct = (t, n, delivery pattern, outcome) tuples",
-	"C34": "real bls.MakeDKG instances for every 1<=t<=n<=N: all n*n shares validated against the published polynomials, tampered shares rejected, every t-subset (exhaustive for n<=7) in several orders recovers one group signature that verifies under the group public key; threshold client keys, split keys, ShareOrSigns.Validate; distinct = (component, t, n, case class, outcome) tuples",
+	"C34": "real bls.MakeDKG instances for every 1<=t<=n<=N: all n*n shares validated against the published polynomials, tampered shares rejected, every t-subset of every instance (exhaustive) in several orders recovers one group signature that verifies under the group public key; threshold client keys, split keys, ShareOrSigns.Validate; distinct = (component, t, n, case class, outcome) tuples",
 	"C47": "seeded key pairs for ed25519 and bls0chain: sign/verify, every other key, other hashes, every single-bit flip of signature and public key, empty/short/oversized/non-hex inputs; client id vs sha3-256 computed with x/crypto directly; distinct = (scheme, case class, outcome) tuples",
 }
 
@@ -62,9 +63,9 @@ func Main(args []string) int {
 	case "C30":
 		names = []string{"bls0chain", "ed25519"}
 	case "C32":
-		names = []string{"agg0", "agg1", "agg2", "agg3", "vt"}
+		names = []string{"agg0", "agg1", "agg2", "agg3", "vt", "vtpanic"}
 		if *tier == "thorough" {
-			names = []string{"agg0", "agg1", "agg2", "agg3", "agg4", "agg5", "agg6", "agg7", "vt"}
+			names = []string{"agg0", "agg1", "agg2", "agg3", "agg4", "agg5", "agg6", "agg7", "vt", "vtpanic"}
 		}
 	case "C33":
 		names = []string{"vrf0", "vrf1", "vrf2", "vrf3"}
@@ -86,6 +87,12 @@ func Main(args []string) int {
 	}
 	res := mon.RunChildren(run, specs, 12)
 	for _, cr := range res {
+		if cr.Crashed && !cr.TimedOut && cr.Spec.Name == "vtpanic" && strings.Contains(cr.LogTail, "blsSignatureSetHexStr") {
+			// not a C32 verdict (a crash is not an acceptance) but recorded: the C47 panic is reachable from block validation
+			run.Count("c32.observed_process_crash_in_ValidateTransactions_on_malformed_signature", 1)
+			run.Set("observations.crashes", []string{"miner.Chain.ValidateTransactions: a block carrying a transaction whose signature string is \"(zz,zz)\" kills the process (panic in encryption.MiraclToHerumiSig inside the validation goroutine, no recover): " + firstPanicLine(cr.LogTail)})
+			continue
+		}
 		if cr.Crashed && !cr.TimedOut {
 			p := mon.KeepLog(cr, fmt.Sprintf("%s-crash-%s-seed%d.log", *prop, cr.Spec.Name, run.SeedV))
 			run.Inconclusive(fmt.Sprintf("child %s crashed (log %s): %s", cr.Spec.Name, p, firstPanicLine(cr.LogTail)))
@@ -130,6 +137,7 @@ func finishParent(run *mon.Run, prop, tier string) {
 		run.RequireMin("c33.below_threshold_evaluated", 10)
 		run.Assume("network handlers in front of AddVRFShare (sender must be a miner of the round's magic block) are not driven; block proposal / verification started at threshold is neutralised by moving the chain's current round ahead")
 	case "C34":
+		run.Exhaustive(true) // bound: every t-subset (x3 orders) of every generated DKG / threshold-key instance, all 1<=t<=n<=8 (quick) or 9 (thorough)
 		run.RequireMin("c34.share_validated", 100)
 		run.RequireMin("c34.subset_recovered", 100)
 		run.Assume("herumi pairing verification (Sign.Verify) is the trusted judge of a signature's validity under a public key")
@@ -151,6 +159,7 @@ func childMain(prop, tier, name string) (code int) {
 		}
 	}()
 	seedRandom(fmt.Sprintf("%s/%s", prop, name))
+	logging.InitLogging("testing", "") // children without a world still call code that logs
 	switch prop {
 	case "C29":
 		c29Child(run, tier, name)
@@ -242,4 +251,22 @@ func idx(name string) int {
 		}
 	}
 	return n
+}
+
+// violate reports at most 3 witnesses per signature and process (mon keeps only the first 200 violations of a
+// run: a frequent finding must never crowd out a different one); the rest is counted.
+var (
+	vioMu   sync.Mutex
+	vioSeen = map[string]int{}
+)
+
+func violate(run *mon.Run, sig, detail string, replay interface{}) {
+	vioMu.Lock()
+	vioSeen[sig]++
+	n := vioSeen[sig]
+	vioMu.Unlock()
+	run.Count("violations."+sig, 1)
+	if n <= 3 {
+		run.Violate(sig, detail, replay)
+	}
 }
